@@ -67,6 +67,15 @@ def unit_expr(clsname, field):
 
             def path(st, la=la, lb=lb, ranF=ranF):
                 setup(st)
+                # ghost: the point OBJECTS handed to the operands' derivative (an operand may keep its base point by reference - ComplexModulus does -,
+                # so the point must not be a buffer the expression keeps for reuse)
+                points = []
+                inner_deriv = st.cuts[oplib.OP + 'Operator.derivative']
+
+                def deriv_rec(I_, fr_, self, point, _inner=inner_deriv):
+                    points.append(point)
+                    return _inner(I_, fr_, self, point)
+                st.cuts[oplib.OP + 'Operator.derivative'] = deriv_rec
                 fr = ip.Frame(st)
                 X = makers.tspace(I, st, 'X', field)
                 Y = makers.tspace(I, st, 'Y', field)
@@ -87,7 +96,7 @@ def unit_expr(clsname, field):
                 elif clsname == 'OperatorComp':
                     R = F if ranF else Z
                     A, B = AbsOp(I, 'A', Y, R, la), AbsOp(I, 'B', X, Y, lb)
-                    args, ranb = [A.op, B.op], R
+                    args, ranb = [A.op, B.op, Y.element('tmp')], R          # with the optional user-supplied temporary
                 elif clsname == 'OperatorVectorSum':
                     A = AbsOp(I, 'A', X, Y, la)
                     v = Y.element('vec')
@@ -136,7 +145,8 @@ def unit_expr(clsname, field):
                 else:
                     rule = app(D(I, fr, A, v_mul(content(args[1]), p)), v_mul(content(args[1]), d))
                 got = app(der, d) if isinstance(der, ip.Obj) else None
-                return ('ok', dict(der=der, got=got, rule=rule, X=X, ranb=ranb, fr=fr, x0=x0, p=p))
+                kept = [a for a in args[2:] if isinstance(a, ip.Obj)]
+                return ('ok', dict(der=der, got=got, rule=rule, X=X, ranb=ranb, fr=fr, x0=x0, p=p, points=points, kept=kept))
             info = {'class': clsname, 'field': field, 'la': la, 'lb': lb, 'ranF': ranF}
             for st, (status, r) in ctx.explore(path):
                 if status == 'raise':
@@ -152,6 +162,8 @@ def unit_expr(clsname, field):
                 ctx.prove(st, 'derivative.range == range', same(get(I, fr, der, 'range'), r['ranb'].space), info)
                 ctx.prove(st, 'derivative is linear', bool(get(I, fr, der, 'is_linear')), info)
                 ctx.prove(st, 'frame: x0 unchanged', lib.eq_goal(st.lower, content(r['x0']), r['p']), info)
+                ctx.prove(st, 'no operand derivative is taken AT a temporary the expression keeps for reuse (an operand may keep its base point by reference)',
+                          not any(pt is k for pt in r['points'] for k in r['kept']), dict(info, points=repr(r['points'])[:200]))
     return Unit('expr/%s/%s' % (clsname, field), run, funcs=[OP + clsname + '.derivative'], config={'class': clsname, 'field': field})
 
 
